@@ -26,7 +26,7 @@ API (namespace `OsmoVerif.Trxd`)
   helpers                     bytearrayAppend, packBE32u, packBE16s, unpackBE32u, unpackBE16s, index, slice,
                               translate, sbyte, ubyte2s, sbit2usbit, usbit2sbit, sbit2ubit, ubit2sbit,
                               txHdrLen, rxHdrLen, parseCommon, genCommon, RxMsg.appendMts, RxMsg.parseMts,
-                              TxMsg.parseBurst, RxMsg.parseBurstV0
+                              TxMsg.parseBurst, RxMsg.parseHdr, RxMsg.parseBurst, RxMsg.parseBurstV0, need, appendLegacy
 
 Python semantics used (all exact for unbounded ints):
   `(ver << 4) | (tn & 0x07)`  = `16*ver + tn mod 8` (floor mod; the two operands have no common bit)
@@ -162,33 +162,33 @@ def validateCommon (ver : Int) (fn tn : Option Int) : Except Exc Unit :=
     | some tn =>
       if tn < 0 ∨ tn > 7 then .error .valueError else .ok ()
 
+/-- a `None` attribute where the code needs a value: the exception Python raises -/
+def need (o : Option α) (e : Exc) : Except Exc α :=
+  match o with
+  | some v => .ok v
+  | none => .error e
+
 /-- `gen_msg`, common part: `buf.append((ver << 4) | (tn & 0x07)); buf += struct.pack(">L", fn)` -/
-def genCommon (ver : Int) (fn tn : Option Int) : Except Exc Bytes :=
-  match tn with
-  | none => .error .typeError
-  | some tn =>
-    match bytearrayAppend [] (16 * ver + tn % 8) with
-    | .error e => .error e
-    | .ok buf =>
-      match fn with
-      | none => .error .structError
-      | some fn =>
-        match packBE32u fn with
-        | .error e => .error e
-        | .ok f => .ok (buf ++ f)
+def genCommon (ver : Int) (fn tn : Option Int) : Except Exc Bytes := do
+  let tn ← need tn .typeError
+  let buf ← bytearrayAppend [] (16 * ver + tn % 8)
+  let fn ← need fn .structError
+  let f ← packBE32u fn
+  pure (buf ++ f)
+
+/-- `if legacy and self.ver == 0x00: buf += bytearray(2)` -/
+def appendLegacy (ver : Int) (legacy : Bool) (buf : Bytes) : Bytes :=
+  if legacy ∧ ver = 0 then buf ++ [0, 0] else buf
 
 /-- `parse_msg`, common part: length check, version, TN, FN.  Returns (ver, tn, fn). -/
-def parseCommon (msg : Bytes) : Except Exc (Nat × Nat × Nat) :=
-  if msg.length < Gen.Trxd.chdrLen then .error .valueError else
-  match index msg 0 with
-  | .error e => .error e
-  | .ok b0 =>
-    let ver := b0 >>> 4
-    if ¬ Gen.Trxd.knownVersions.contains (ver : Int) then .error .valueError else
-    let tn := b0 &&& 0x07
-    match unpackBE32u (slice msg 1 5) with
-    | .error e => .error e
-    | .ok fn => .ok (ver, tn, fn)
+def parseCommon (msg : Bytes) : Except Exc (Nat × Nat × Nat) := do
+  if msg.length < Gen.Trxd.chdrLen then throw .valueError
+  let b0 ← index msg 0
+  let ver := b0 >>> 4
+  if ¬ Gen.Trxd.knownVersions.contains (ver : Int) then throw .valueError
+  let tn := b0 &&& 0x07
+  let fn ← unpackBE32u (slice msg 1 5)
+  pure (ver, tn, fn)
 
 /-- `HDR_LEN` property (regenerated by evaluating it for every version; `IndexError` otherwise) -/
 def hdrLenOf (tab : List (Nat × Nat)) (ver : Nat) : Except Exc Nat :=
@@ -217,43 +217,41 @@ def fresh : TxMsg := ⟨0, none, none, none, none⟩
 def WellTyped (m : TxMsg) : Prop := ∀ b ∈ m.burst, ∀ x ∈ b, x < 256
 instance (m : TxMsg) : Decidable m.WellTyped := by unfold WellTyped; infer_instance
 
-/-- `TxMsg.validate(self)` -/
-def validate (m : TxMsg) : Except Exc Unit :=
-  match validateCommon m.ver m.fn m.tn with
-  | .error e => .error e
-  | .ok () =>
-    match m.pwr with
+/-- attenuation and burst checks of `TxMsg.validate` -/
+def validateOwn (m : TxMsg) : Except Exc Unit :=
+  match m.pwr with
+  | none => .error .valueError
+  | some pwr =>
+    if pwr < Gen.Trxd.pwrMin ∨ pwr > Gen.Trxd.pwrMax then .error .valueError else
+    match m.burst with
     | none => .error .valueError
-    | some pwr =>
-      if pwr < Gen.Trxd.pwrMin ∨ pwr > Gen.Trxd.pwrMax then .error .valueError else
-      match m.burst with
-      | none => .error .valueError
-      | some b =>
-        if ¬ (b.length = Gen.Trxd.gmskBurstLen ∨ b.length = Gen.Trxd.edgeBurstLen) then .error .valueError
-        else .ok ()
+    | some b =>
+      if ¬ (b.length = Gen.Trxd.gmskBurstLen ∨ b.length = Gen.Trxd.edgeBurstLen) then .error .valueError
+      else .ok ()
+
+/-- `TxMsg.validate(self)` -/
+def validate (m : TxMsg) : Except Exc Unit := do
+  validateCommon m.ver m.fn m.tn      -- Msg.validate(self)
+  m.validateOwn
 
 /-- `append_hdr_to`: `buf.append(self.pwr)` -/
-def appendHdrTo (m : TxMsg) (buf : Bytes) : Except Exc Bytes :=
-  match m.pwr with
-  | none => .error .typeError
-  | some pwr => bytearrayAppend buf pwr
+def appendHdrTo (m : TxMsg) (buf : Bytes) : Except Exc Bytes := do
+  let pwr ← need m.pwr .typeError
+  bytearrayAppend buf pwr
+
+/-- `if self.burst is not None: self.append_burst_to(buf)`: `buf.extend(self.burst)` (bytes: copied as is) -/
+def appendBurstTo (m : TxMsg) (buf : Bytes) : Except Exc Bytes :=
+  match m.burst with
+  | none => .ok buf
+  | some b => .ok (buf ++ b)
 
 /-- `TxMsg.gen_msg(self, legacy)` -/
-def genMsg (m : TxMsg) (legacy : Bool := false) : Except Exc Bytes :=
-  match m.validate with
-  | .error e => .error e
-  | .ok () =>
-    match genCommon m.ver m.fn m.tn with
-    | .error e => .error e
-    | .ok buf =>
-      match m.appendHdrTo buf with
-      | .error e => .error e
-      | .ok buf =>
-        -- append_burst_to: `buf.extend(self.burst)` (bytes: copied as is)
-        let buf := match m.burst with
-          | none => buf
-          | some b => buf ++ b
-        .ok (if legacy ∧ m.ver = 0 then buf ++ [0, 0] else buf)
+def genMsg (m : TxMsg) (legacy : Bool := false) : Except Exc Bytes := do
+  m.validate
+  let buf ← genCommon m.ver m.fn m.tn
+  let buf ← m.appendHdrTo buf
+  let buf ← m.appendBurstTo buf
+  pure (appendLegacy m.ver legacy buf)
 
 /-- `TxMsg.parse_burst`: GSM / EDGE length selection and truncation -/
 def parseBurst (burst : Bytes) : Bytes :=
@@ -265,22 +263,16 @@ def parseBurst (burst : Bytes) : Bytes :=
 
 /-- `TxMsg().parse_msg(msg)`; every attribute of the object is assigned, so the result does not
 depend on the object's previous state. -/
-def parseMsg (msg : Bytes) : Except Exc TxMsg :=
-  match parseCommon msg with
-  | .error e => .error e
-  | .ok (ver, tn, fn) =>
-    match txHdrLen ver with
-    | .error e => .error e
-    | .ok hl =>
-      if msg.length < hl then .error .valueError else
-      -- parse_hdr: `self.pwr = hdr[5]`
-      match index msg 5 with
-      | .error e => .error e
-      | .ok pwr =>
-        if msg.length = hl then
-          .ok ⟨ver, some fn, some tn, some pwr, none⟩
-        else
-          .ok ⟨ver, some fn, some tn, some pwr, some (parseBurst (msg.drop hl))⟩
+def parseMsg (msg : Bytes) : Except Exc TxMsg := do
+  let (ver, tn, fn) ← parseCommon msg
+  let hl ← txHdrLen ver
+  if msg.length < hl then throw .valueError
+  -- parse_hdr: `self.pwr = hdr[5]`
+  let pwr ← index msg 5
+  if msg.length = hl then
+    pure ⟨ver, some fn, some tn, some pwr, none⟩
+  else
+    pure ⟨ver, some fn, some tn, some pwr, some (parseBurst (msg.drop hl))⟩
 end TxMsg
 
 /-! ### RxMsg -/
@@ -372,84 +364,54 @@ def validateMeas (m : RxMsg) : Except Exc Unit :=
     | some toa => if toa < Gen.Trxd.toa256Min ∨ toa > Gen.Trxd.toa256Max then .error .valueError else .ok ()
 
 /-- `RxMsg.validate(self)` -/
-def validate (m : RxMsg) : Except Exc Unit :=
-  match validateCommon m.ver m.fn m.tn with
-  | .error e => .error e
-  | .ok () =>
-    match m.validateMeas with
-    | .error e => .error e
-    | .ok () =>
-      match m.validateMts with
-      | .error e => .error e
-      | .ok () =>
-        match m.validateCi with
-        | .error e => .error e
-        | .ok () => m.validateBurst
+def validate (m : RxMsg) : Except Exc Unit := do
+  validateCommon m.ver m.fn m.tn      -- Msg.validate(self)
+  m.validateMeas
+  m.validateMts
+  m.validateCi
+  m.validateBurst
 
 /-- `mts = self.gen_mts(); buf.append(mts)`.
 `gen_mts`: `NOPE_IND` if `nope_ind`, else `(tsc & 0b111) | (coding << 3) | (tsc_set << 3)`.
 With a negative `tsc_set` the value is negative and `append` raises ValueError. -/
-def appendMts (m : RxMsg) (buf : Bytes) : Except Exc Bytes :=
+def appendMts (m : RxMsg) (buf : Bytes) : Except Exc Bytes := do
   if m.nopeInd then bytearrayAppend buf Gen.Trxd.nopeInd else
-  match m.tsc with
-  | none => .error .typeError
-  | some tsc =>
-    match m.modType with
-    | none => .error .attributeError
-    | some mod =>
-      match m.tscSet with
-      | none => .error .typeError
-      | some set =>
-        if set < 0 then .error .valueError else
-        bytearrayAppend buf ((((tsc % 8).toNat ||| (mod.coding <<< 3)) ||| (set.toNat <<< 3) : Nat) : Int)
+  let tsc ← need m.tsc .typeError
+  let mod ← need m.modType .attributeError
+  let set ← need m.tscSet .typeError
+  if set < 0 then throw .valueError
+  bytearrayAppend buf ((((tsc % 8).toNat ||| (mod.coding <<< 3)) ||| (set.toNat <<< 3) : Nat) : Int)
 
 /-- `RxMsg.append_hdr_to(buf)` -/
-def appendHdrTo (m : RxMsg) (buf : Bytes) : Except Exc Bytes :=
-  match m.rssi with
-  | none => .error .typeError
-  | some rssi =>
-    match bytearrayAppend buf (-rssi) with
-    | .error e => .error e
-    | .ok buf =>
-      match m.toa256 with
-      | none => .error .structError
-      | some toa =>
-        match packBE16s toa with
-        | .error e => .error e
-        | .ok t =>
-          let buf := buf ++ t
-          if m.ver ≥ 1 then
-            match m.appendMts buf with
-            | .error e => .error e
-            | .ok buf =>
-              match m.ci with
-              | none => .error .structError
-              | some ci =>
-                match packBE16s ci with
-                | .error e => .error e
-                | .ok c => .ok (buf ++ c)
-          else .ok buf
+def appendHdrTo (m : RxMsg) (buf : Bytes) : Except Exc Bytes := do
+  let rssi ← need m.rssi .typeError
+  let buf ← bytearrayAppend buf (-rssi)
+  let toa ← need m.toa256 .structError
+  let t ← packBE16s toa
+  let buf := buf ++ t
+  if m.ver ≥ 1 then
+    let buf ← m.appendMts buf
+    let ci ← need m.ci .structError
+    let c ← packBE16s ci
+    pure (buf ++ c)
+  else
+    pure buf
+
+/-- `if self.burst is not None: self.append_burst_to(buf)`: `buf.extend(self.sbit2usbit(self.burst))` -/
+def appendBurstTo (m : RxMsg) (buf : Bytes) : Except Exc Bytes :=
+  match m.burst with
+  | none => .ok buf
+  | some b => do
+    let u ← sbit2usbit b
+    pure (buf ++ u)
 
 /-- `RxMsg.gen_msg(self, legacy)` -/
-def genMsg (m : RxMsg) (legacy : Bool := false) : Except Exc Bytes :=
-  match m.validate with
-  | .error e => .error e
-  | .ok () =>
-    match genCommon m.ver m.fn m.tn with
-    | .error e => .error e
-    | .ok buf =>
-      match m.appendHdrTo buf with
-      | .error e => .error e
-      | .ok buf =>
-        -- append_burst_to: `buf.extend(self.sbit2usbit(self.burst))`
-        match (match m.burst with
-               | none => Except.ok buf
-               | some b =>
-                 match sbit2usbit b with
-                 | .error e => .error e
-                 | .ok u => .ok (buf ++ u)) with
-        | .error e => .error e
-        | .ok buf => .ok (if legacy ∧ m.ver = 0 then buf ++ [0, 0] else buf)
+def genMsg (m : RxMsg) (legacy : Bool := false) : Except Exc Bytes := do
+  m.validate
+  let buf ← genCommon m.ver m.fn m.tn
+  let buf ← m.appendHdrTo buf
+  let buf ← m.appendBurstTo buf
+  pure (appendLegacy m.ver legacy buf)
 
 /-- `RxMsg.parse_mts(mts)` -/
 def parseMts (m : RxMsg) (mts : Nat) : RxMsg :=
@@ -475,47 +437,40 @@ def parseBurstV0 (burst : Bytes) : Except Exc (Modulation × Bytes) :=
   | none => .error .valueError
   | some m => .ok (m, burst.take m.bl)
 
+/-- `RxMsg.parse_hdr(hdr)` on an object whose `ver` has been assigned -/
+def parseHdr (m : RxMsg) (msg : Bytes) : Except Exc RxMsg := do
+  let r ← index msg 5
+  let toa ← unpackBE16s (slice msg 6 8)
+  let m := { m with rssi := some (-(r : Int)), toa256 := some toa }
+  if m.ver ≥ 1 then
+    let mts ← index msg 8
+    let m := m.parseMts mts
+    let ci ← unpackBE16s (slice msg 9 11)
+    pure { m with ci := some ci }
+  else
+    pure m
+
+/-- `RxMsg.parse_burst(burst)` -/
+def parseBurst (m : RxMsg) (burst : Bytes) : Except Exc RxMsg := do
+  if m.ver = 0 then
+    let (mod, b) ← parseBurstV0 burst
+    let s ← usbit2sbit b
+    pure { m with modType := some mod, burst := some s }
+  else
+    let s ← usbit2sbit burst
+    pure { m with burst := some s }
+
 /-- `self.parse_msg(msg)` on an existing object `self` -/
-def parseMsgFrom (self : RxMsg) (msg : Bytes) : Except Exc RxMsg :=
-  match parseCommon msg with
-  | .error e => .error e
-  | .ok (ver, tn, fn) =>
-    match rxHdrLen ver with
-    | .error e => .error e
-    | .ok hl =>
-      if msg.length < hl then .error .valueError else
-      -- parse_hdr
-      match index msg 5 with
-      | .error e => .error e
-      | .ok r =>
-        match unpackBE16s (slice msg 6 8) with
-        | .error e => .error e
-        | .ok toa =>
-          let m : RxMsg := { self with ver := ver, fn := some (fn : Int), tn := some (tn : Int),
-                                       rssi := some (-(r : Int)), toa256 := some toa }
-          match (if ver ≥ 1 then
-                   match index msg 8 with
-                   | .error e => .error e
-                   | .ok mts =>
-                     match unpackBE16s (slice msg 9 11) with
-                     | .error e => .error e
-                     | .ok ci => .ok { m.parseMts mts with ci := some ci }
-                 else Except.ok m) with
-          | .error e => .error e
-          | .ok m =>
-            if msg.length = hl then .ok { m with burst := none } else
-            -- parse_burst
-            let burst := msg.drop hl
-            match (if ver = 0 then
-                     match parseBurstV0 burst with
-                     | .error e => .error e
-                     | .ok (mod, b) => .ok ({ m with modType := some mod }, b)
-                   else Except.ok (m, burst)) with
-            | .error e => .error e
-            | .ok (m, burst) =>
-              match usbit2sbit burst with
-              | .error e => .error e
-              | .ok s => .ok { m with burst := some s }
+def parseMsgFrom (self : RxMsg) (msg : Bytes) : Except Exc RxMsg := do
+  let (ver, tn, fn) ← parseCommon msg
+  let m := { self with ver := ver, tn := some (tn : Int), fn := some (fn : Int) }
+  let hl ← rxHdrLen ver
+  if msg.length < hl then throw .valueError
+  let m ← m.parseHdr msg
+  if msg.length = hl then
+    pure { m with burst := none }
+  else
+    m.parseBurst (msg.drop hl)
 
 /-- `RxMsg().parse_msg(msg)` -/
 def parseMsg (msg : Bytes) : Except Exc RxMsg := parseMsgFrom fresh msg
